@@ -464,13 +464,14 @@ func History(t *rapid.T, o HistOpt) *hist.History {
 			rotLeft--
 			fileNo++
 			between()
+			flip := rapid.IntRange(0, 3).Draw(t, "rot_flip_checksum") == 0 // SET GLOBAL binlog_checksum rotates the log
 			switch rapid.IntRange(0, 3).Draw(t, "rot_kind") {
 			case 0: // the file ends with a STOP event (clean shutdown), no rotate event
-				h.Units = append(h.Units, hist.Unit{Kind: hist.UFileEnd, NextFile: fname(fileNo), EvType: refenc.EvStop, TS: ck.tick(t)})
+				h.Units = append(h.Units, hist.Unit{Kind: hist.UFileEnd, NextFile: fname(fileNo), EvType: refenc.EvStop, TS: ck.tick(t), FlipChecksum: flip})
 			case 1: // the file just ends (crash)
-				h.Units = append(h.Units, hist.Unit{Kind: hist.UFileEnd, NextFile: fname(fileNo)})
+				h.Units = append(h.Units, hist.Unit{Kind: hist.UFileEnd, NextFile: fname(fileNo), FlipChecksum: flip})
 			default:
-				h.Units = append(h.Units, hist.Unit{Kind: hist.URotate, NextFile: fname(fileNo), TS: ck.tick(t)})
+				h.Units = append(h.Units, hist.Unit{Kind: hist.URotate, NextFile: fname(fileNo), TS: ck.tick(t), FlipChecksum: flip})
 			}
 			if gtidMode != 0 && rapid.Bool().Draw(t, "prev_after_rot") {
 				h.Units = append(h.Units, prevGTIDs())
